@@ -76,15 +76,16 @@ func Bubble(t *testing.T, f func()) (harness string) {
 
 // verbosity is the gRPC log verbosity of the current run (0 or 99). Plain
 // memory: a worker executes one run at a time and sets it before the run's
-// first task exists. Race-detector workers never raise it: formatting log
-// arguments goes through fmt's pools, which would act as happens-before edges
-// the program does not have.
+// first task exists. In race-detector builds a verbose run can hide a race
+// (formatting log arguments goes through fmt's pools, which the detector treats
+// as synchronisation) but never invents one, and only a verbose run executes
+// the code under log.V(..): the verbose fraction of the runs is kept there too.
 var verbosity int
 
 //go:norace
 func SetVerbose(on bool) {
 	verbosity = 0
-	if on && !kern.RaceBuild {
+	if on {
 		verbosity = 99
 	}
 }
